@@ -226,8 +226,9 @@ fn spawn_source(node: &mut Node, si: usize, pv: ProtocolVersion, chunk: u16, lim
 
 fn serve(nodes: &mut [Node], net: &mut SimNet<Meta>, d: &Datagram<Meta>, ti: usize, now: u64) {
     let Kind::Request { node: rn, slot: rs, seq } = d.meta.kind.clone() else { return };
-    let requester_ips = nodes[rn].ips.clone();
-    let requester_id = nodes[rn].mgr.verif_server_id();
+    // requesters beyond the node table are the direct Bloom-filter clients
+    let requester_ips = if rn < nodes.len() { nodes[rn].ips.clone() } else { vec![ip_of(d.from)] };
+    let requester_id = nodes[if rn < nodes.len() { rn } else { ti }].mgr.verif_server_id();
     let t = &mut nodes[ti];
     match t.role {
         Role::Absent => {}
@@ -413,9 +414,21 @@ fn deliver(nodes: &mut [Node], d: Datagram<Meta>, ni: usize) {
     let a = match res {
         Ok(a) => a,
         Err(msg) => {
-            // plain-source robustness belongs to the plain-source world; keep the evidence visible
-            probe("plain-source-panicked-on-datagram");
             ev!("node{ni} src{si} PANIC on datagram ({tag}): {msg}");
+            let chunk_len = if wire::version(&bytes) == 5 { wire::walk(&bytes, true).into_iter().find(|e| e.ty == wire::EF_REFID_RESP).map(|e| e.body.len()) } else { None };
+            if let Some(n) = chunk_len {
+                // a chunk answer must be accepted or ignored, never crash the source task
+                simkit::oracle("C34");
+                simkit::violation(
+                    "C34",
+                    "chunk-answer-crashed-the-source",
+                    format!("node{ni} src{si}: answer {tag} carrying a {n}-byte chunk (requested size {}) made handle_incoming panic: {msg}", before.bloom.chunk_size),
+                );
+            } else {
+                // plain-source robustness is the plain-source world's property; keep it visible as an aborted run
+                probe("plain-source-panicked-on-datagram");
+                simkit::abort(format!("plain source panicked on a datagram without chunk field ({tag}): {msg}"));
+            }
             nodes[ni].slots[si].src = None;
             return;
         }
@@ -436,7 +449,8 @@ fn deliver(nodes: &mut [Node], d: Datagram<Meta>, ni: usize) {
     }
     let solicited = if outstanding && accepted { chunk.as_deref() } else { None };
     check_bloom_change(&before.bloom, &after.bloom, solicited, &format!("node{ni} src{si} datagram {tag} outstanding={outstanding} bound={bound} accepted={accepted}"));
-    if !outstanding || !bound {
+    // (a stale answer damaged in flight may by chance carry the right cookie again: judge intact ones only)
+    if !outstanding || (!bound && d.mutation.is_none()) {
         // C34: a stale or unsolicited answer never reaches the filter
         check!(
             "C34",
@@ -495,6 +509,146 @@ fn deliver(nodes: &mut [Node], d: Datagram<Meta>, ni: usize) {
         nodes[ni].slots[si].src = None;
     }
     let _ = a.n;
+}
+
+/// A client that drives the real `RemoteBloomFilter` directly: it builds its own NTPv5
+/// requests around `next_request` and hands EVERY answer that reaches it to
+/// `handle_response` without any pre-validation, so the filter's own "outstanding
+/// request / requested size" checks are what is exercised.
+struct Raw {
+    addr: u32,
+    target: u32,
+    rbf: ntp_proto::verif::system::RemoteBloomFilter,
+    chunk: u16,
+    next_timer: u64,
+    period: u64,
+    seq: u64,
+    /// model of the transfer: outstanding (cookie, offset), assembled bytes, next offset, complete
+    outstanding: Option<([u8; 8], u16)>,
+    m_bytes: [u8; 512],
+    m_next: u16,
+    m_filled: bool,
+    versions: Vec<Option<(usize, usize)>>,
+}
+
+fn raw_timer(raws: &mut [Raw], ri: usize, base: usize, net: &mut SimNet<Meta>, now: u64) {
+    let r = &mut raws[ri];
+    let cookie = simkit::choose_u64("raw.cookie").to_be_bytes();
+    let before = r.rbf.verif_view();
+    let req = r.rbf.next_request(ntp_proto::verif::system::NtpClientCookie(cookie));
+    let after = r.rbf.verif_view();
+    check!(
+        "C34",
+        "chunk-request-follows-the-transfer",
+        req.offset() == r.m_next && req.payload_len() == r.chunk && before.bytes == after.bytes,
+        "direct client {ri}: requested offset {} len {} while the model expects offset {} len {}",
+        req.offset(),
+        req.payload_len(),
+        r.m_next,
+        r.chunk
+    );
+    r.outstanding = Some((cookie, req.offset()));
+    r.seq += 1;
+    let h = Hdr {
+        v5: true,
+        leap: 0,
+        mode: 3,
+        stratum: 0,
+        poll: 4,
+        precision: 0,
+        root_delay: 0,
+        root_disp: 0,
+        word3: [0; 4],
+        f16: 0,
+        f24: u64::from_be_bytes(cookie),
+        recv: 0,
+        xmit: 0,
+    };
+    let mut out = h.bytes();
+    out.extend(wire::refid_request_ef(req.offset(), req.payload_len() as usize));
+    out.extend(wire::ef(wire::EF_DRAFT_ID, wire::DRAFT, 4, true));
+    net.send(now, r.addr, r.target, out, Meta { kind: Kind::Request { node: base + ri, slot: 0, seq: r.seq } });
+    r.next_timer = now + r.period;
+}
+
+fn raw_deliver(raws: &mut [Raw], ri: usize, nodes: &[Node], d: &Datagram<Meta>) {
+    let Kind::Resp { filter_version, tag, .. } = d.meta.kind.clone() else { return };
+    let r = &mut raws[ri];
+    let bytes = &d.bytes;
+    if bytes.len() < 48 || wire::version(bytes) != 5 {
+        return;
+    }
+    let Some(chunk) = wire::walk(bytes, true).into_iter().find(|e| e.ty == wire::EF_REFID_RESP).map(|e| e.body) else { return };
+    let cookie: [u8; 8] = bytes[24..32].try_into().unwrap();
+    let before = r.rbf.verif_view();
+    let rbf = &mut r.rbf;
+    let res = exec::catch(|| rbf.handle_response(ntp_proto::verif::system::NtpClientCookie(cookie), &ntp_proto::verif::system::ReferenceIdResponse::decode(&chunk)).is_ok());
+    let accepted = match res {
+        Ok(a) => a,
+        Err(msg) => {
+            simkit::oracle("C34");
+            simkit::violation(
+                "C34",
+                "chunk-answer-crashed-the-source",
+                format!("direct client {ri}: answer {tag} with a {}-byte chunk (requested {}) made handle_response panic: {msg}", chunk.len(), r.chunk),
+            );
+            r.target = u32::MAX;
+            r.next_timer = u64::MAX;
+            return;
+        }
+    };
+    let after = r.rbf.verif_view();
+    // model: accept iff a request is outstanding, the cookie is that request's, and the size is the requested one
+    let model_accept = matches!(r.outstanding, Some((c, _)) if c == cookie) && chunk.len() == r.chunk as usize;
+    if model_accept {
+        let (_, off) = r.outstanding.take().unwrap();
+        let (off, n) = (off as usize, r.chunk as usize);
+        r.m_bytes[off..off + n].copy_from_slice(&chunk);
+        r.m_next = ((off + n) % 512) as u16;
+        if r.m_next == 0 {
+            r.m_filled = true;
+        }
+        r.versions[off / n] = if d.mutation.is_none() { filter_version } else { None };
+        probe("direct-chunk-accepted");
+    } else {
+        probe("direct-chunk-rejected");
+    }
+    check!(
+        "C34",
+        "chunk-accepted-only-for-outstanding-request-and-size",
+        accepted == model_accept && after.bytes == r.m_bytes && after.next_to_request == r.m_next && after.filled == r.m_filled && (model_accept || after == before),
+        "direct client {ri} (chunk size {}): answer {tag} cookie {:?} len {} -> accepted={accepted}, model={model_accept}; filter bytes equal model: {}, next {} vs {}, complete {} vs {}",
+        r.chunk,
+        hex(&cookie),
+        chunk.len(),
+        after.bytes == r.m_bytes,
+        after.next_to_request,
+        r.m_next,
+        after.filled,
+        r.m_filled
+    );
+    check!("C34", "complete-filter-only-after-all-chunks", r.rbf.full_filter().is_some() == r.m_filled, "direct client {ri}: full_filter() is {} but the model says complete={}", r.rbf.full_filter().is_some(), r.m_filled);
+    if r.m_filled {
+        if let Some(Some((sn, ver))) = r.versions.first().copied() {
+            if r.versions.iter().all(|v| *v == Some((sn, ver))) {
+                let full = r.rbf.full_filter().map(|f| *f.as_bytes());
+                check!(
+                    "C34",
+                    "complete-filter-equals-servers-filter",
+                    full.as_ref() == Some(&nodes[sn].filters[ver]),
+                    "direct client {ri} (chunk size {}): every chunk came from node{sn}'s filter version {ver}, yet the assembled filter differs",
+                    r.chunk
+                );
+                let ids_ok = match (&nodes[sn].role, r.rbf.full_filter()) {
+                    (Role::Byzantine(_), Some(f)) => nodes[sn].byz_ids.iter().all(|id| f.contains_id(id)),
+                    (Role::Daemon, Some(f)) if ver > 0 => f.contains_id(&nodes[sn].mgr.verif_server_id()),
+                    _ => true,
+                };
+                check!("C34", "no-false-negative-for-added-id", ids_ok, "direct client {ri}: the complete filter fetched from node{sn} misses an id that was added to it");
+                probe("complete-filter-compared");
+            }
+        }
+    }
 }
 
 fn tick(nodes: &mut [Node], ni: usize) {
@@ -702,6 +856,31 @@ pub fn run_daemon() {
             }
         }
         let _ = Role::Absent;
+        // direct Bloom-filter clients (always for C34, sometimes otherwise)
+        let nraw = if c34 { 1 + choose("cfg.nraw", 3) as usize } else if chance("cfg.raw", 0.3) { 1 } else { 0 };
+        let raw_base = nodes.len();
+        let mut raws: Vec<Raw> = vec![];
+        for i in 0..nraw {
+            let chunk = [16u16, 4, 8, 32, 64, 128, 256, 512][choose("cfg.raw.chunk", 8) as usize];
+            // target: any serving node (daemon, root or byzantine)
+            let target = nodes[choose("cfg.raw.target", nodes.len() as u64) as usize].addr;
+            raws.push(Raw {
+                addr: 200 + i as u32,
+                target,
+                rbf: ntp_proto::verif::system::RemoteBloomFilter::new(chunk).expect("valid chunk size"),
+                chunk,
+                next_timer: choose("cfg.raw.start", 2000) * 1_000_000,
+                // fast polls against slow answers make stale answers common
+                period: [1_000_000_000u64, 200_000_000, 50_000_000, 4_000_000_000][choose("cfg.raw.period", 4) as usize],
+                seq: 0,
+                outstanding: None,
+                m_bytes: [0; 512],
+                m_next: 0,
+                m_filled: false,
+                versions: vec![None; 512 / chunk as usize],
+            });
+            ev!("cfg direct-client{i} -> addr {target} chunk={chunk}");
+        }
 
         let horizon = horizon_s * 1_000_000_000;
         loop {
@@ -721,16 +900,30 @@ pub fn run_daemon() {
                     }
                 }
             }
+            for r in raws.iter() {
+                t = t.min(r.next_timer);
+            }
             if t == u64::MAX || t > horizon {
                 break;
             }
             advance_to(t).await;
             let now = simkit::now_ns().max(t);
             while let Some((_, d)) = net.pop_due(now) {
+                if let Some(ri) = raws.iter().position(|r| r.addr == d.to) {
+                    raw_deliver(&mut raws, ri, &nodes, &d);
+                    continue;
+                }
                 let Some(ti) = nodes.iter().position(|n| n.addr == d.to) else { continue };
                 match d.meta.kind {
                     Kind::Request { .. } => serve(&mut nodes, &mut net, &d, ti, now),
                     Kind::Resp { .. } => deliver(&mut nodes, d, ti),
+                }
+            }
+            for ri in 0..raws.len() {
+                if raws[ri].next_timer <= now && raws[ri].seq < 400 {
+                    raw_timer(&mut raws, ri, raw_base, &mut net, now);
+                } else if raws[ri].next_timer <= now {
+                    raws[ri].next_timer = u64::MAX;
                 }
             }
             for ni in 0..nodes.len() {
